@@ -5,7 +5,7 @@
   no jump pending, and the slots it adds are numbered inside its own range of temporaries, with one
   `alloc` each in `allocs`.
 -/
-import CprocVerif.Lemmas.Lower2Expr
+import CprocVerif.Lemmas.Lower2Expr3a
 
 set_option linter.unusedSimpArgs false
 
@@ -49,6 +49,13 @@ def exprOut (cs : Bool) (c : SCtx) (e : Expr) : Out := funcexpr2 cs c.slots e c.
 theorem lowerE_eq (cs : Bool) {c : SCtx} (h : c.jump = none) (e : Expr) :
     lowerE cs c e = ⟨(exprOut cs c e).items, (exprOut cs c e).val, c.upd (exprOut cs c e).ctx⟩ := by
   simp only [lowerE, funcopen_none h, List.nil_append, exprOut]
+
+/-- `funcexpr` on an expression with array reads and calls at statement level, directly. -/
+def exprOut3 (cs : Bool) (c : SCtx) (e : Expr3) : Out := funcexpr3 cs c.slots e c.ctx
+
+theorem lowerE3_eq (cs : Bool) {c : SCtx} (h : c.jump = none) (e : Expr3) :
+    lowerE3 cs c e = ⟨(exprOut3 cs c e).items, (exprOut3 cs c e).val, c.upd (exprOut3 cs c e).ctx⟩ := by
+  simp only [lowerE3, funcopen_none h, List.nil_append, exprOut3]
 
 def jnzOut (cs : Bool) (c : SCtx) (t : CSem.Ty) (v : Val) : Out := jnzArg cs c.ctx t v
 
@@ -118,6 +125,9 @@ theorem curOK_label (name : String) (j n l : Nat) (h : j ≤ n) : CurOK ⟨l, n,
 /-- an expression between statements -/
 theorem exprOut_good (cs : Bool) (c : SCtx) (e : Expr) : Good c.ctx (exprOut cs c e) :=
   funcexpr2_good cs c.slots e c.ctx
+
+theorem exprOut3_good (cs : Bool) (c : SCtx) (e : Expr3) : Good c.ctx (exprOut3 cs c e) :=
+  funcexpr3_good cs c.slots e c.ctx
 
 theorem itemLabels_single_ins (i : Ins) : itemLabels [Item.ins i] = [] := rfl
 
@@ -201,7 +211,7 @@ theorem ladder_good (w : Bool) (v : Val) (lab : Nat → String) (dl : String) (t
     · intro j h1 h2; omega
 
 /-- the part of `for` after its head (condition and branch, or nothing) -/
-theorem for_good (cs : Bool) (e : Option Expr) (step b : Stmt)
+theorem for_good (cs : Bool) (e : Option Expr3) (step b : Stmt)
     (ihs : ∀ (brk cont : String) (c : SCtx), c.jump = none → SGood step c (funcstmt cs brk cont step c))
     (ihb : ∀ (brk cont : String) (c : SCtx), c.jump = none → SGood b c (funcstmt cs brk cont b c))
     (brk cont : String) (c : SCtx) (hd : List Item × SCtx)
@@ -309,8 +319,8 @@ theorem funcstmt_good' (cs : Bool) (st : Stmt) : ∀ (brk cont : String) (c : SC
       exact ⟨Nat.lt_succ_self _, Nat.le_refl _⟩
     | some e =>
       have hj1 : (⟨c.lastid + 1, c.blockid, c.cur, c.jump, c.slots ++ [c.lastid + 1]⟩ : SCtx).jump = none := hj
-      have g := exprOut_good cs ⟨c.lastid + 1, c.blockid, c.cur, c.jump, c.slots ++ [c.lastid + 1]⟩ e
-      simp only [funcstmt, lowerE_eq cs hj1]
+      have g := exprOut3_good cs ⟨c.lastid + 1, c.blockid, c.cur, c.jump, c.slots ++ [c.lastid + 1]⟩ e
+      simp only [funcstmt, lowerE3_eq cs hj1]
       have gl := g.lastid
       simp only [ctx_lastid] at gl
       refine ⟨by unf; omega, g.blockid, ?_, ?_, ?_, fun _ => hj, fun new h => sorted_of_eq (new' := [c.lastid + 1]) h (List.pairwise_singleton _ _),
@@ -334,8 +344,8 @@ theorem funcstmt_good' (cs : Bool) (st : Stmt) : ∀ (brk cont : String) (c : SC
       · exact h
       · simp [Stmt.startsLabel] at h
     clear hj0
-    have g := exprOut_good cs c e
-    simp only [funcstmt, lowerE_eq cs hj]
+    have g := exprOut3_good cs c e
+    simp only [funcstmt, lowerE3_eq cs hj]
     refine ⟨g.lastid, g.blockid, ?_, ?_, g.curOK, fun _ => hj, fun new h => sorted_of_eq (new' := []) (by rw [List.append_nil]; exact h) List.Pairwise.nil, [], by simp, rfl, by simp, rfl⟩
     · simp only [itemLabels_append, storeIns, itemLabels_single_ins, List.append_nil]
       exact g.labels
@@ -391,8 +401,8 @@ theorem funcstmt_good' (cs : Bool) (st : Stmt) : ∀ (brk cont : String) (c : SC
       · exact h
       · simp [Stmt.startsLabel] at h
     clear hj0
-    have g := exprOut_good cs c e
-    simp only [funcstmt, lowerE_eq cs hj]
+    have g := exprOut3_good cs c e
+    simp only [funcstmt, lowerE3_eq cs hj]
     exact ⟨g.lastid, g.blockid, g.labels, g.cur, g.curOK, fun _ => hj, fun new h => sorted_of_eq (new' := []) (by rw [List.append_nil]; exact h) List.Pairwise.nil, [], by simp, rfl, by simp, rfl⟩
   | ret e =>
     intro brk cont c hj0 _
@@ -401,8 +411,8 @@ theorem funcstmt_good' (cs : Bool) (st : Stmt) : ∀ (brk cont : String) (c : SC
       · exact h
       · simp [Stmt.startsLabel] at h
     clear hj0
-    have g := exprOut_good cs c e
-    simp only [funcstmt, lowerE_eq cs hj]
+    have g := exprOut3_good cs c e
+    simp only [funcstmt, lowerE3_eq cs hj]
     exact ⟨g.lastid, g.blockid, g.labels, g.cur, g.curOK, fun h => by simp [Stmt.endsJump] at h, fun new h => sorted_of_eq (new' := []) (by rw [List.append_nil]; exact h) List.Pairwise.nil,
       [], by simp, rfl, by simp, rfl⟩
   | seq a b iha ihb =>
@@ -451,15 +461,15 @@ theorem funcstmt_good' (cs : Bool) (st : Stmt) : ∀ (brk cont : String) (c : SC
       · simp [Stmt.startsLabel] at h
     clear hj0
     simp only [noDead] at hnd
-    have ge := exprOut_good cs c e
-    simp only [funcstmt, lowerE_eq cs hj]
-    have hj2 : ((c.upd (exprOut cs c e).ctx).addBlocks 2).jump = none := hj
+    have ge := exprOut3_good cs c e
+    simp only [funcstmt, lowerE3_eq cs hj]
+    have hj2 : ((c.upd (exprOut3 cs c e).ctx).addBlocks 2).jump = none := hj
     simp only [lowerJnz_eq cs hj2]
-    have sj := jnzArg_straight cs ((c.upd (exprOut cs c e).ctx).addBlocks 2).ctx e.ty (exprOut cs c e).val
-    have ga := iha brk cont (((c.upd (exprOut cs c e).ctx).addBlocks 2).upd
-      (jnzOut cs ((c.upd (exprOut cs c e).ctx).addBlocks 2) e.ty (exprOut cs c e).val).ctx |>.atLabel
-        (lblName "if_true" ((c.upd (exprOut cs c e).ctx).blockid + 1))) (Or.inl rfl) hnd
-    generalize hoe : exprOut cs c e = oe at ge sj ga ⊢
+    have sj := jnzArg_straight cs ((c.upd (exprOut3 cs c e).ctx).addBlocks 2).ctx e.ty (exprOut3 cs c e).val
+    have ga := iha brk cont (((c.upd (exprOut3 cs c e).ctx).addBlocks 2).upd
+      (jnzOut cs ((c.upd (exprOut3 cs c e).ctx).addBlocks 2) e.ty (exprOut3 cs c e).val).ctx |>.atLabel
+        (lblName "if_true" ((c.upd (exprOut3 cs c e).ctx).blockid + 1))) (Or.inl rfl) hnd
+    generalize hoe : exprOut3 cs c e = oe at ge sj ga ⊢
     change Straight _ (jnzOut cs ((c.upd oe.ctx).addBlocks 2) e.ty oe.val) at sj
     generalize hoj : jnzOut cs ((c.upd oe.ctx).addBlocks 2) e.ty oe.val = oj at sj ga ⊢
     generalize hoa : funcstmt cs brk cont a ((((c.upd oe.ctx).addBlocks 2).upd oj.ctx).atLabel
@@ -501,15 +511,15 @@ theorem funcstmt_good' (cs : Bool) (st : Stmt) : ∀ (brk cont : String) (c : SC
       · simp [Stmt.startsLabel] at h
     clear hj0
     simp only [noDead, Bool.and_eq_true] at hnd
-    have ge := exprOut_good cs c e
-    simp only [funcstmt, lowerE_eq cs hj]
-    have hj2 : ((c.upd (exprOut cs c e).ctx).addBlocks 2).jump = none := hj
+    have ge := exprOut3_good cs c e
+    simp only [funcstmt, lowerE3_eq cs hj]
+    have hj2 : ((c.upd (exprOut3 cs c e).ctx).addBlocks 2).jump = none := hj
     simp only [lowerJnz_eq cs hj2]
-    have sj := jnzArg_straight cs ((c.upd (exprOut cs c e).ctx).addBlocks 2).ctx e.ty (exprOut cs c e).val
-    have ga := iha brk cont (((c.upd (exprOut cs c e).ctx).addBlocks 2).upd
-      (jnzOut cs ((c.upd (exprOut cs c e).ctx).addBlocks 2) e.ty (exprOut cs c e).val).ctx |>.atLabel
-        (lblName "if_true" ((c.upd (exprOut cs c e).ctx).blockid + 1))) (Or.inl rfl) hnd.1
-    generalize hoe : exprOut cs c e = oe at ge sj ga ⊢
+    have sj := jnzArg_straight cs ((c.upd (exprOut3 cs c e).ctx).addBlocks 2).ctx e.ty (exprOut3 cs c e).val
+    have ga := iha brk cont (((c.upd (exprOut3 cs c e).ctx).addBlocks 2).upd
+      (jnzOut cs ((c.upd (exprOut3 cs c e).ctx).addBlocks 2) e.ty (exprOut3 cs c e).val).ctx |>.atLabel
+        (lblName "if_true" ((c.upd (exprOut3 cs c e).ctx).blockid + 1))) (Or.inl rfl) hnd.1
+    generalize hoe : exprOut3 cs c e = oe at ge sj ga ⊢
     change Straight _ (jnzOut cs ((c.upd oe.ctx).addBlocks 2) e.ty oe.val) at sj
     generalize hoj : jnzOut cs ((c.upd oe.ctx).addBlocks 2) e.ty oe.val = oj at sj ga ⊢
     generalize hoa : funcstmt cs brk cont a ((((c.upd oe.ctx).addBlocks 2).upd oj.ctx).atLabel
@@ -575,12 +585,12 @@ theorem funcstmt_good' (cs : Bool) (st : Stmt) : ∀ (brk cont : String) (c : SC
     clear hj0
     simp only [noDead] at hnd
     have hj1 : ((c.addBlocks 3).atLabel (lblName "while_cond" (c.blockid + 1))).jump = none := rfl
-    have ge := exprOut_good cs ((c.addBlocks 3).atLabel (lblName "while_cond" (c.blockid + 1))) e
-    simp only [funcstmt, lowerE_eq cs hj1]
+    have ge := exprOut3_good cs ((c.addBlocks 3).atLabel (lblName "while_cond" (c.blockid + 1))) e
+    simp only [funcstmt, lowerE3_eq cs hj1]
     have hj2 : (((c.addBlocks 3).atLabel (lblName "while_cond" (c.blockid + 1))).upd
-      (exprOut cs ((c.addBlocks 3).atLabel (lblName "while_cond" (c.blockid + 1))) e).ctx).jump = none := rfl
+      (exprOut3 cs ((c.addBlocks 3).atLabel (lblName "while_cond" (c.blockid + 1))) e).ctx).jump = none := rfl
     simp only [lowerJnz_eq cs hj2]
-    generalize hoe : exprOut cs ((c.addBlocks 3).atLabel (lblName "while_cond" (c.blockid + 1))) e = oe
+    generalize hoe : exprOut3 cs ((c.addBlocks 3).atLabel (lblName "while_cond" (c.blockid + 1))) e = oe
       at ge ⊢
     have sj := jnzArg_straight cs (((c.addBlocks 3).atLabel (lblName "while_cond" (c.blockid + 1))).upd
       oe.ctx).ctx e.ty oe.val
@@ -640,12 +650,12 @@ theorem funcstmt_good' (cs : Bool) (st : Stmt) : ∀ (brk cont : String) (c : SC
     generalize hob : funcstmt cs (lblName "do_join" (c.blockid + 3)) (lblName "do_cond" (c.blockid + 2)) b
       ((c.addBlocks 3).atLabel (lblName "do_body" (c.blockid + 1))) = ob at gb ⊢
     have hj1 : (ob.ctx.atLabel (lblName "do_cond" (c.blockid + 2))).jump = none := rfl
-    have ge := exprOut_good cs (ob.ctx.atLabel (lblName "do_cond" (c.blockid + 2))) e
-    simp only [lowerE_eq cs hj1]
+    have ge := exprOut3_good cs (ob.ctx.atLabel (lblName "do_cond" (c.blockid + 2))) e
+    simp only [lowerE3_eq cs hj1]
     have hj2 : ((ob.ctx.atLabel (lblName "do_cond" (c.blockid + 2))).upd
-      (exprOut cs (ob.ctx.atLabel (lblName "do_cond" (c.blockid + 2))) e).ctx).jump = none := rfl
+      (exprOut3 cs (ob.ctx.atLabel (lblName "do_cond" (c.blockid + 2))) e).ctx).jump = none := rfl
     simp only [lowerJnz_eq cs hj2]
-    generalize hoe : exprOut cs (ob.ctx.atLabel (lblName "do_cond" (c.blockid + 2))) e = oe at ge ⊢
+    generalize hoe : exprOut3 cs (ob.ctx.atLabel (lblName "do_cond" (c.blockid + 2))) e = oe at ge ⊢
     have sj := jnzArg_straight cs ((ob.ctx.atLabel (lblName "do_cond" (c.blockid + 2))).upd oe.ctx).ctx
       e.ty oe.val
     change Straight _ (jnzOut cs ((ob.ctx.atLabel (lblName "do_cond" (c.blockid + 2))).upd oe.ctx)
@@ -706,12 +716,12 @@ theorem funcstmt_good' (cs : Bool) (st : Stmt) : ∀ (brk cont : String) (c : SC
     | some e =>
       simp only [funcstmt]
       have hj1 : ((c.addBlocks 4).atLabel (lblName "for_cond" (c.blockid + 1))).jump = none := rfl
-      have ge := exprOut_good cs ((c.addBlocks 4).atLabel (lblName "for_cond" (c.blockid + 1))) e
-      simp only [lowerE_eq cs hj1]
+      have ge := exprOut3_good cs ((c.addBlocks 4).atLabel (lblName "for_cond" (c.blockid + 1))) e
+      simp only [lowerE3_eq cs hj1]
       have hj2 : (((c.addBlocks 4).atLabel (lblName "for_cond" (c.blockid + 1))).upd
-        (exprOut cs ((c.addBlocks 4).atLabel (lblName "for_cond" (c.blockid + 1))) e).ctx).jump = none := rfl
+        (exprOut3 cs ((c.addBlocks 4).atLabel (lblName "for_cond" (c.blockid + 1))) e).ctx).jump = none := rfl
       simp only [lowerJnz_eq cs hj2]
-      generalize hoe : exprOut cs ((c.addBlocks 4).atLabel (lblName "for_cond" (c.blockid + 1))) e = oe
+      generalize hoe : exprOut3 cs ((c.addBlocks 4).atLabel (lblName "for_cond" (c.blockid + 1))) e = oe
         at ge ⊢
       have sj := jnzArg_straight cs (((c.addBlocks 4).atLabel (lblName "for_cond" (c.blockid + 1))).upd
         oe.ctx).ctx e.ty oe.val
@@ -787,9 +797,9 @@ theorem funcstmt_good' (cs : Bool) (st : Stmt) : ∀ (brk cont : String) (c : SC
     clear hj0
     simp only [noDead, Bool.and_eq_true] at hnd
     have hj1 : (c.addBlocks 2).jump = none := hj
-    have ge := exprOut_good cs (c.addBlocks 2) e
-    simp only [funcstmt, lowerE_eq cs hj1]
-    generalize hoe : exprOut cs (c.addBlocks 2) e = oe at ge ⊢
+    have ge := exprOut3_good cs (c.addBlocks 2) e
+    simp only [funcstmt, lowerE3_eq cs hj1]
+    generalize hoe : exprOut3 cs (c.addBlocks 2) e = oe at ge ⊢
     have gb := ihb (lblName "switch_join" (c.blockid + 2)) cont
       (((c.addBlocks 2).upd oe.ctx).setJump (.jmp (lblName "switch_cond" (c.blockid + 1)))) (Or.inr hnd.1) hnd.2
     generalize hob : funcstmt cs (lblName "switch_join" (c.blockid + 2)) cont b
@@ -939,11 +949,11 @@ theorem funcstmt_good' (cs : Bool) (st : Stmt) : ∀ (brk cont : String) (c : SC
       · exact h
       · simp [Stmt.startsLabel] at h
     clear hj0
-    have g := exprOut_good cs c e
-    simp only [funcstmt, lowerE_eq cs hj]
-    obtain ⟨l1, b1, lab1, cur1, ok1⟩ := lowerAddr_good cs (c.upd (exprOut cs c e).ctx).slots
-      (c.upd (exprOut cs c e).ctx).ctx (c.slots.getD arr 0) t idx
-    generalize hoa : lowerAddr cs (c.upd (exprOut cs c e).ctx).slots (c.upd (exprOut cs c e).ctx).ctx
+    have g := exprOut3_good cs c e
+    simp only [funcstmt, lowerE3_eq cs hj]
+    obtain ⟨l1, b1, lab1, cur1, ok1⟩ := lowerAddr_good cs (c.upd (exprOut3 cs c e).ctx).slots
+      (c.upd (exprOut3 cs c e).ctx).ctx (c.slots.getD arr 0) t idx
+    generalize hoa : lowerAddr cs (c.upd (exprOut3 cs c e).ctx).slots (c.upd (exprOut3 cs c e).ctx).ctx
       (c.slots.getD arr 0) t idx = oa at l1 b1 lab1 cur1 ok1 ⊢
     have gl := g.lastid; have gb := g.blockid
     unf at l1 b1 gl gb
